@@ -567,8 +567,7 @@ inline constexpr void Conversion<Unit::Memory, Unit::Memory::Pebibyte>::ToStanda
 }
 
 template <typename NumericType>
-inline const std::map<Unit::Memory,
-                      std::function<void(NumericType* values, const std::size_t size)>>
+inline const ConversionTable<Unit::Memory, NumericType>
     MapOfConversionsFromStandard<Unit::Memory, NumericType>{
       {Unit::Memory::Bit,      Conversions<Unit::Memory, Unit::Memory::Bit>::FromStandard<NumericType>     },
       {Unit::Memory::Byte,
@@ -616,8 +615,7 @@ inline const std::map<Unit::Memory,
 };
 
 template <typename NumericType>
-inline const std::map<Unit::Memory,
-                      std::function<void(NumericType* const values, const std::size_t size)>>
+inline const ConversionTable<Unit::Memory, NumericType>
     MapOfConversionsToStandard<Unit::Memory, NumericType>{
       {Unit::Memory::Bit,      Conversions<Unit::Memory, Unit::Memory::Bit>::ToStandard<NumericType>     },
       {Unit::Memory::Byte,     Conversions<Unit::Memory, Unit::Memory::Byte>::ToStandard<NumericType>    },
